@@ -498,7 +498,6 @@ type HashContext = {
 type Hash256Context = {
   writer: Hash256Writer;
   active: Map<Runtype, number>;
-  nextCycleId: number;
 };
 
 export interface Runtype {
@@ -2368,16 +2367,17 @@ export abstract class BaseRefRuntype extends BaseRuntype {
   }
   hash256(ctx: Hash256Context): void {
     const to = this.getNamedRuntypes()[this.refName];
-    const activeId = ctx.active.get(to);
-    if (activeId != null) {
+    const startedAt = ctx.active.get(to);
+    if (startedAt != null) {
+      // refer back to the enclosing named type by how much structure was written since it started:
+      // names and alias boundaries write nothing, so they cannot influence the reference
+      const distance = ctx.writer.tagCount - startedAt;
       ctx.writer.updateTag("cycleRef");
-      ctx.writer.updateNumber(activeId);
+      ctx.writer.updateNumber(distance);
       return;
     }
 
-    const id = ctx.nextCycleId;
-    ctx.nextCycleId++;
-    ctx.active.set(to, id);
+    ctx.active.set(to, ctx.writer.tagCount);
     to.hash256(ctx);
     ctx.active.delete(to);
   }
@@ -2522,7 +2522,6 @@ class ParserFromRuntype implements BeffParser<any> {
     const ctx: Hash256Context = {
       writer: new Hash256Writer(),
       active: new Map(),
-      nextCycleId: 0,
     };
     ctx.writer.updateTag("beff-hash256-v1");
     this._runtype.hash256(ctx);
